@@ -42,6 +42,8 @@ MCKinds == [
     utf8    |-> Mk(V6b, 2, V4b, 3, 2, << 195, 169 >>, Run(9, 1)),
     lo6     |-> Mk(V6Loopback, 7, V6low, 8, 1, << 66 >>, Run(5, 2)),
     big     |-> Mk(V4a, 9, V4b, 10, 1, << 67 >>, Run(77, 60000)),
+    \* the largest record below the tolerance band (L = MaxIn - alen): a payload UDP allows, so it is delivered
+    fit     |-> Mk(V4a, 13, V4b, 14, 1, << 69 >>, Run(88, MaxIn - 1 - UdpInFixedLen - 1)),
     short5  |-> Junk(5),
     short0  |-> Junk(0),
     short36 |-> Junk(36),
